@@ -10,6 +10,7 @@ import (
 	"os"
 	"path/filepath"
 
+	"github.com/oasisprotocol/curve25519-voi/curve/scalar"
 	"github.com/oasisprotocol/curve25519-voi/internal/field"
 )
 
@@ -80,4 +81,120 @@ func vinv(es ...*field.Element) [][]int {
 		out = append(out, vfe(&i))
 	}
 	return out
+}
+
+// vfresh: values handed to the caller must be the caller's own.  For every method that returns a byte slice or a point
+// pointer: keep the result, reuse the receiver for another value (the kept result must not change), scribble over the
+// kept result (the receiver, the package-level constants and the tables must not change).  One event per API; the
+// trace specifications accept "fresh" events only with ok = true.
+func vfresh(w *vwriter, cfg, family string) {
+	emit := func(api string, ok bool, detail string) {
+		w.emit(vev{"op": "fresh", "cfg": cfg, "api": api, "ok": ok, "detail": detail})
+	}
+	scribble := func(b []byte) {
+		for i := range b {
+			b[i] ^= 0xff
+		}
+	}
+	eq := func(a, b []byte) bool { return string(a) == string(b) }
+	var P, Q EdwardsPoint
+	P.Add(ED25519_BASEPOINT_POINT, ED25519_BASEPOINT_POINT)
+	Q.Add(&P, ED25519_BASEPOINT_POINT)
+	encOf := func(p *EdwardsPoint) []byte {
+		var c CompressedEdwardsY
+		c.SetEdwardsPoint(p)
+		return append([]byte(nil), c[:]...)
+	}
+	encB := encOf(ED25519_BASEPOINT_POINT)
+	if family == "edwards" || family == "all" {
+		// CompressedEdwardsY.MarshalBinary
+		var c CompressedEdwardsY
+		c.SetEdwardsPoint(&P)
+		b, _ := c.MarshalBinary()
+		snap := append([]byte(nil), b...)
+		c.SetEdwardsPoint(&Q)
+		ok1 := eq(b, snap)
+		scribble(b)
+		b2, _ := c.MarshalBinary()
+		emit("CompressedEdwardsY.MarshalBinary", ok1 && eq(b2, encOf(&Q)), "")
+		// EdwardsPoint.MarshalBinary
+		var x EdwardsPoint
+		x.Set(&P)
+		b, _ = x.MarshalBinary()
+		snap = append([]byte(nil), b...)
+		x.Set(&Q)
+		ok1 = eq(b, snap) && eq(snap, encOf(&P))
+		scribble(b)
+		b2, _ = x.MarshalBinary()
+		emit("EdwardsPoint.MarshalBinary", ok1 && eq(b2, encOf(&Q)), "")
+		// EdwardsBasepointTable.Basepoint (the embedded table and a user-built one) and ExpandedEdwardsPoint.Point
+		for _, tc := range []struct {
+			name string
+			tbl  *EdwardsBasepointTable
+			want []byte
+		}{{"ED25519_BASEPOINT_TABLE.Basepoint", ED25519_BASEPOINT_TABLE, encB}, {"NewEdwardsBasepointTable(P).Basepoint", NewEdwardsBasepointTable(&P), encOf(&P)}} {
+			r := tc.tbl.Basepoint()
+			ok := eq(encOf(r), tc.want)
+			r.Add(r, &Q) // the caller uses its result as a receiver
+			r.Identity()
+			var one EdwardsPoint
+			one.MulBasepoint(tc.tbl, scalar.NewFromUint64(1))
+			ok = ok && eq(encOf(tc.tbl.Basepoint()), tc.want) && eq(encOf(&one), tc.want) && eq(encOf(ED25519_BASEPOINT_POINT), encB)
+			emit(tc.name, ok, "")
+		}
+		ep := NewExpandedEdwardsPoint(&P)
+		r := ep.Point()
+		r.Add(r, &Q)
+		var d EdwardsPoint
+		d.ExpandedDoubleScalarMulBasepointVartime(scalar.NewFromUint64(1), ep, scalar.NewFromUint64(0))
+		emit("ExpandedEdwardsPoint.Point", eq(encOf(ep.Point()), encOf(&P)) && eq(encOf(&d), encOf(&P)), "")
+		// MontgomeryPoint / constants handed out by value: nothing to alias
+	}
+	if family == "ristretto" || family == "all" {
+		var RP, RQ RistrettoPoint
+		RP.Add(RISTRETTO_BASEPOINT_POINT, RISTRETTO_BASEPOINT_POINT)
+		RQ.Add(&RP, RISTRETTO_BASEPOINT_POINT)
+		rencOf := func(p *RistrettoPoint) []byte {
+			var c CompressedRistretto
+			c.SetRistrettoPoint(p)
+			return append([]byte(nil), c[:]...)
+		}
+		rencB := rencOf(RISTRETTO_BASEPOINT_POINT)
+		var c CompressedRistretto
+		c.SetRistrettoPoint(&RP)
+		b, _ := c.MarshalBinary()
+		snap := append([]byte(nil), b...)
+		c.SetRistrettoPoint(&RQ)
+		ok1 := eq(b, snap)
+		scribble(b)
+		b2, _ := c.MarshalBinary()
+		emit("CompressedRistretto.MarshalBinary", ok1 && eq(b2, rencOf(&RQ)), "")
+		var x RistrettoPoint
+		x.Set(&RP)
+		b, _ = x.MarshalBinary()
+		snap = append([]byte(nil), b...)
+		x.Set(&RQ)
+		ok1 = eq(b, snap) && eq(snap, rencOf(&RP))
+		scribble(b)
+		b2, _ = x.MarshalBinary()
+		emit("RistrettoPoint.MarshalBinary", ok1 && eq(b2, rencOf(&RQ)), "")
+		for _, tc := range []struct {
+			name string
+			tbl  *RistrettoBasepointTable
+			want []byte
+		}{{"RISTRETTO_BASEPOINT_TABLE.Basepoint", RISTRETTO_BASEPOINT_TABLE, rencB}, {"NewRistrettoBasepointTable(P).Basepoint", NewRistrettoBasepointTable(&RP), rencOf(&RP)}} {
+			r := tc.tbl.Basepoint()
+			ok := eq(rencOf(r), tc.want)
+			r.Add(r, &RQ)
+			r.Identity()
+			var one RistrettoPoint
+			one.MulBasepoint(tc.tbl, scalar.NewFromUint64(1))
+			ok = ok && eq(rencOf(tc.tbl.Basepoint()), tc.want) && eq(rencOf(&one), tc.want) && eq(rencOf(RISTRETTO_BASEPOINT_POINT), rencB)
+			emit(tc.name, ok, "")
+		}
+		ep := NewExpandedRistrettoPoint(&RP)
+		r := ep.Point()
+		r.Add(r, &RQ)
+		emit("ExpandedRistrettoPoint.Point", eq(rencOf(ep.Point()), rencOf(&RP)), "")
+	}
 }
